@@ -1575,3 +1575,41 @@ class HilbertDriver(_DataClimateDriver):
 
 
 register(HilbertDriver())
+
+
+class CoupledTsonisDriver(_DataClimateDriver):
+    name = "CoupledTsonisClimateNetwork"
+    groups = ([0, 1, 2, 3, 4, 5], [6, 7, 8, 9, 10, 11])
+
+    def cls(self):
+        from pyunicorn.climate import CoupledTsonisClimateNetwork
+        return CoupledTsonisClimateNetwork
+
+    def construct(self, model):
+        d1 = climate_data(T=24, time_cycle=12)
+        d2 = climate_data(T=24, time_cycle=12)
+        # make the second layer different from the first
+        d2._full_observable[:] = d2._full_observable[:, ::-1] * 0.7 + 0.1
+        d2.set_global_window()
+        return self.cls()(d1, d2, silence_level=3, **self.kwargs(model))
+
+    def queries(self, model):
+        base = set(qlabel(q) for q in discover(ClimateDriver().cls()))
+        inet = set(qlabel(q) for q in discover(InteractingDriver().cls()))
+        keep = ("degree", "adjacency", "n_links", "nsi_degree",
+                "cross_degree", "cross_link_density", "path_lengths",
+                "node_weights", "total_node_weight")
+        qs = [q for q in Driver.queries(self, model)
+              if (qlabel(q) not in base and qlabel(q) not in inet)
+              or q[0] in keep]
+        qs += [["adjacency", [], {}], ["node_weights", [], {}]]
+        return qs
+
+    def admits(self, model, q):
+        if q[0] in ("eigenvector_centrality", "nsi_eigenvector_centrality",
+                    "msf_synchronizability"):
+            return False
+        return True
+
+
+register(CoupledTsonisDriver())
